@@ -19,6 +19,10 @@ func (x *Exec) loopSpecOf(s ast.Stmt) *LoopSpec {
 	if !ok {
 		engineFail("loop not numbered in %s", x.unit)
 	}
+	if x.loopSeen == nil {
+		x.loopSeen = map[int]bool{}
+	}
+	x.loopSeen[n] = true
 	sp := x.con.Loops[n]
 	if sp == nil {
 		if x.con.Opts["loops"] == "havoc" {
@@ -37,6 +41,26 @@ type modSet struct {
 	vars    map[types.Object]bool
 	heap    map[string]bool
 	visited map[*types.Func]bool
+	// map heaps written only through local map variables: the variables per heap key (nil entry once a
+	// write through any other expression was seen)
+	mapVars map[string][]types.Object
+}
+
+func (ms *modSet) noteMapWrite(keys []string, o types.Object) {
+	if ms.mapVars == nil {
+		ms.mapVars = map[string][]types.Object{}
+	}
+	for _, k := range keys {
+		cur, seen := ms.mapVars[k]
+		switch {
+		case o == nil:
+			ms.mapVars[k] = nil
+		case !seen:
+			ms.mapVars[k] = []types.Object{o}
+		case cur != nil:
+			ms.mapVars[k] = append(cur, o)
+		}
+	}
 }
 
 // modified computes the variables and heap keys a statement may assign.
@@ -80,6 +104,13 @@ func (x *Exec) modified(n ast.Node, ms *modSet) {
 			case *types.Map:
 				hk, vk := x.mapKeys(x.sortOf(u.Key()), x.sortOf(u.Elem()))
 				ms.heap[hk], ms.heap[vk] = true, true
+				var mo types.Object
+				if id, ok := unparen(e.X).(*ast.Ident); ok {
+					if v, ok := info.ObjectOf(id).(*types.Var); ok && v.Pkg() != nil && v.Parent() != v.Pkg().Scope() {
+						mo = v
+					}
+				}
+				ms.noteMapWrite([]string{hk, vk}, mo)
 			}
 		case *ast.StarExpr:
 			t := info.TypeOf(e.X)
@@ -128,6 +159,7 @@ func (x *Exec) modified(n ast.Node, ms *modSet) {
 			if c := x.lookupContract(fn); c != nil {
 				for _, a := range c.Assigns {
 					ms.heap[a] = true
+					ms.noteMapWrite([]string{a}, nil)
 				}
 				if c.HasMod {
 					sig := fn.Type().(*types.Signature)
@@ -213,6 +245,29 @@ func (x *Exec) havoc(st *State, n ast.Node) {
 		}
 	}
 	for _, k := range sortedKeys(ms.heap) {
+		// a map heap written only through local map variables the loop does not reassign: only the rows
+		// of those maps change (other maps of the same key/value sorts keep their contents)
+		if objs := ms.mapVars[k]; len(objs) > 0 {
+			precise := true
+			var refs []Term
+			for _, o := range objs {
+				v, ok := st.env[o].(Term)
+				if ms.vars[o] || !ok {
+					precise = false
+					break
+				}
+				refs = append(refs, v)
+			}
+			if cur, ok := st.heap[k]; precise && ok && strings.HasPrefix(string(cur.Sort), "(Array Int ") {
+				row := Sort(strings.TrimSuffix(strings.TrimPrefix(string(cur.Sort), "(Array Int "), ")"))
+				t := cur
+				for _, r := range refs {
+					t = Term{"(store " + t.S + " " + r.S + " " + x.fresh("row_"+sanitize(k), row).S + ")", cur.Sort}
+				}
+				st.heap[k] = t
+				continue
+			}
+		}
 		x.heapHavoc(st, k)
 	}
 	// the body may allocate: the allocation pointer after any number of iterations is at or below now
@@ -378,7 +433,10 @@ func (x *Exec) execFor(s *ast.ForStmt, st *State) []*State {
 			}
 			body := h.clone()
 			body.assume(cond)
-			for _, b := range x.execBlock(s.Body.List, body) {
+			iterStart := body.clone()
+			iterEnds := x.execBlock(s.Body.List, body)
+			x.checkStep(sp, iterStart, iterEnds, ord)
+			for _, b := range iterEnds {
 				switch b.out {
 				case outNormal, outContinue:
 					if b.label != "" {
@@ -491,7 +549,10 @@ func (x *Exec) execRange1(s *ast.RangeStmt, sp *LoopSpec, ord int, st *State) []
 		body.assume("(select " + x.mapHas(body, base, ks, vs).S + " " + k.S + ")")
 		body.assume("(not (= " + base.S + " 0))")
 		bindKV(body, k, Term{"(select " + x.mapVal(body, base, ks, vs).S + " " + k.S + ")", vs})
-		for _, b := range x.execBlock(s.Body.List, body) {
+		mapIterStart := body.clone()
+		mapIterEnds := x.execBlock(s.Body.List, body)
+		x.checkStep(sp, mapIterStart, mapIterEnds, ord)
+		for _, b := range mapIterEnds {
 			switch b.out {
 			case outNormal, outContinue:
 				b.out = outNormal
@@ -541,3 +602,4 @@ func (x *Exec) execRange1(s *ast.RangeStmt, sp *LoopSpec, ord int, st *State) []
 	out = append(out, st)
 	return out
 }
+
